@@ -1,30 +1,48 @@
 #!/usr/bin/env python3
-"""Run every seeded change under /verif/seeded against the check of its property (apply to /repo, check, undo) and
-record the outcome in its meta.json.  Usage: tools/sweep_seeded.py [name ...]"""
-import json, os, subprocess, sys, time
+"""Run every seeded change under /verif/seeded against the check of its property and record the outcome in its
+meta.json.  Each change is applied in its own scratch worktree of /repo (VERIF_REPO_OVERRIDE, see ./check): /repo and
+/verif/evidence stay untouched, and three changes are tried side by side.
+Usage: tools/sweep_seeded.py [name ...]"""
+import concurrent.futures as cf
+import json
+import os
+import subprocess
+import sys
+import time
+
 V = "/verif"
-names = sys.argv[1:] or sorted(os.listdir(f"{V}/seeded"))
-for n in names:
+
+
+def one(n):
     d = f"{V}/seeded/{n}"
     meta = json.load(open(f"{d}/meta.json"))
     prop = meta["property"]
-    if subprocess.run(["git", "-C", "/repo", "diff", "--quiet"]).returncode:
-        sys.exit("/repo has local changes")
-    if subprocess.run(["git", "-C", "/repo", "apply", f"{d}/patch.diff"]).returncode:
-        meta["detected_by"] = {"error": "patch does not apply"}
-    else:
-        ev = f"{V}/evidence/{prop}.json"
-        bak = open(ev).read() if os.path.exists(ev) else None
-        t = time.time()
-        r = subprocess.run([f"{V}/check", prop, "--tier", "quick"], cwd=V, capture_output=True, text=True)
-        subprocess.run(["git", "-C", "/repo", "checkout", "--", "."])
-        lines = [l for l in r.stdout.splitlines() if l.startswith("VIOLATION") or l.startswith("  clause=")]
-        clauses = sorted({l.split("clause=")[1].split(" ")[0] for l in lines if "clause=" in l})
-        summ = [l for l in r.stdout.splitlines() if l.startswith("[")]
-        meta["detected_by"] = {"check": prop, "tier": "quick", "exit": r.returncode, "clauses": clauses,
-                               "summary": summ[-1] if summ else "", "wall_s": round(time.time() - t, 1)}
-        if bak is not None:
-            open(ev, "w").write(bak)
+    wt = f"/tmp/try/sweep-{n}"
+    subprocess.run(["rm", "-rf", wt])
+    os.makedirs("/tmp/try", exist_ok=True)
+    if subprocess.run(["git", "-C", "/repo", "worktree", "add", "--detach", wt, "HEAD"], capture_output=True).returncode:
+        return n, {"error": "worktree"}
+    try:
+        if subprocess.run(["git", "-C", wt, "apply", f"{d}/patch.diff"]).returncode:
+            det = {"error": "patch does not apply"}
+        else:
+            t = time.time()
+            r = subprocess.run([f"{V}/check", prop, "--tier", "quick"], cwd=V, capture_output=True, text=True,
+                               env={**os.environ, "VERIF_REPO_OVERRIDE": wt})
+            lines = [l for l in r.stdout.splitlines() if l.startswith("VIOLATION") or l.startswith("  clause=")]
+            clauses = sorted({l.split("clause=")[1].split(" ")[0] for l in lines if "clause=" in l})
+            summ = [l for l in r.stdout.splitlines() if l.startswith("[")]
+            det = {"check": prop, "tier": "quick", "exit": r.returncode, "clauses": clauses,
+                   "summary": summ[-1] if summ else "", "wall_s": round(time.time() - t, 1)}
+    finally:
+        subprocess.run(["git", "-C", "/repo", "worktree", "remove", "--force", wt], capture_output=True)
+        subprocess.run(["rm", "-rf", "/dev/shm/verif-try-" + wt.strip("/").replace("/", "_")])
+    meta["detected_by"] = det
     json.dump(meta, open(f"{d}/meta.json", "w"), indent=1)
-    print(n, meta["detected_by"].get("exit"), meta["detected_by"].get("clauses"), flush=True)
-subprocess.run("rm -f /verif/replays/*.json", shell=True)
+    return n, det
+
+
+names = sys.argv[1:] or sorted(os.listdir(f"{V}/seeded"))
+with cf.ThreadPoolExecutor(max_workers=3) as ex:
+    for n, det in ex.map(one, names):
+        print(n, det.get("exit"), det.get("clauses"), det.get("error", ""), flush=True)
